@@ -205,6 +205,32 @@ def evalAssign (r : Regs) (args : List String) : Option Val :=
   | ["decrypt", e, k] => do
     let e ← r.env e; let k ← bytesOfHex k
     pure (.ofRes (decryptWhole H AE k e))
+  | ["tamper", e, field] => do
+    let e ← r.env e
+    match e.subject with
+    | .encrypted m _ =>
+      let flip0 (v : Bytes) : Bytes := match v with | [] => [] | x :: xs => (x ^^^ 1) :: xs
+      let flipLast (v : Bytes) : Bytes := (flip0 v.reverse).reverse
+      let m'? : Option EncMsg :=
+        if field == "ct" then some { m with ciphertext := flip0 m.ciphertext }
+        else if field == "nonce" then some { m with nonce := flip0 m.nonce }
+        else if field == "auth" then some { m with auth := flip0 m.auth }
+        else if field == "aad" then some { m with aad := flipLast m.aad }
+        else Option.none
+      let m' ← m'?
+      pure (match m'.optDigest with
+        | some d => .ofRes (replaceSubject H e (.encrypted m' d))
+        | Option.none => .err "MissingDigest")
+    | _ => pure (.err "not-encrypted")
+  | ["misdeclare", e, other, k, n] => do
+    let e ← r.env e; let other ← r.env other; let k ← bytesOfHex k; let n ← bytesOfHex n
+    let m := encryptWithDigest AE k n (encode other) e.digest
+    pure (match m.optDigest with
+      | some d => .env (.encrypted m d)
+      | Option.none => .err "MissingDigest")
+  | ["miscompress", e, other] => do
+    let e ← r.env e; let other ← r.env other
+    pure (.env (.compressed (compressedOf ZZ (encode other)) e.digest))
   | ["decode", hx] => do
     let b ← bytesOfHex hx
     pure (.ofRes (decode H b))
